@@ -1015,6 +1015,304 @@ theorem visD_neutral_compFree (exro : Bool) :
     | false => rfl
     | true => simp only [if_true, Option.isSome_map]; exact P
 
+/-! ### T4: composition-free schemas — validating with `DefaultsSet` = validating the completed value without it -/
+
+theorem keys_setKey_of_mem (k : Str) (y : V) (kvs : List (Str × V)) (x : V) (h : lookup k kvs = some x) :
+    keys (setKey k y kvs) = keys kvs := by
+  induction kvs with
+  | nil => simp [lookup] at h
+  | cons e r ih =>
+    obtain ⟨k', v'⟩ := e
+    rw [lookup_cons] at h
+    unfold setKey
+    by_cases hk : k = k'
+    · simp [hk, keys]
+    · simp only [hk, if_false] at h ⊢
+      simp only [keys, List.map_cons] at ih ⊢
+      rw [ih h]
+
+theorem lookup_setKey_self (k : Str) (y : V) (kvs : List (Str × V)) : lookup k (setKey k y kvs) = some y := by
+  induction kvs with
+  | nil => simp [setKey, lookup]
+  | cons e r ih =>
+    obtain ⟨k', v'⟩ := e
+    unfold setKey
+    by_cases hk : k = k'
+    · simp [hk, lookup]
+    · simp only [hk, if_false]; rw [lookup_cons]; simp only [hk, if_false]; exact ih
+
+theorem completeProps_keys (exro : Bool) (props : List (Str × RS)) :
+    ∀ kvs, keys (completeProps exro props kvs) = keys kvs := by
+  induction props with
+  | nil => intro kvs; rfl
+  | cons e r ih =>
+    obtain ⟨k, p⟩ := e
+    intro kvs
+    unfold completeProps completeStep
+    cases hl : lookup k kvs with
+    | none => simp only; exact ih kvs
+    | some x => simp only; rw [ih, keys_setKey_of_mem k _ kvs x hl]
+
+theorem completeProps_lookup (exro : Bool) (props : List (Str × RS)) (hn : (keys props).Nodup) (k : Str) :
+    ∀ kvs, lookup k (completeProps exro props kvs) =
+      match lookup k props with
+      | some p => (lookup k kvs).map (complete exro p)
+      | none => lookup k kvs := by
+  induction props with
+  | nil => intro kvs; rfl
+  | cons e r ih =>
+    obtain ⟨k0, p0⟩ := e
+    simp only [keys, List.map_cons, List.nodup_cons] at hn
+    intro kvs
+    have hk0 : lookup k0 r = none := lookup_none_of_not_mem_keys k0 r hn.1
+    unfold completeProps completeStep
+    rw [ih hn.2, lookup_cons]
+    by_cases hk : k = k0
+    · subst hk
+      simp only [if_true, hk0]
+      cases hl : lookup k kvs with
+      | none => simp [hl]
+      | some x => simp [lookup_setKey_self]
+    · simp only [hk, if_false]
+      cases hl0 : lookup k0 kvs with
+      | none => rfl
+      | some x0 => simp only; rw [lookup_setKey_ne k0 k _ kvs hk]
+
+theorem addlOKD_keys (s : RS) (kvs kvs' : List (Str × V)) (h : keys kvs = keys kvs') : addlOKD s kvs = addlOKD s kvs' := by
+  have e : ∀ l : List (Str × V), addlOKD s l = (keys l).all fun k => (lookup k s.props).isSome || s.addl != some false := by
+    intro l; unfold addlOKD keys; rw [List.all_map]; rfl
+  rw [e, e, h]
+
+theorem complete_isNull (exro : Bool) (s : RS) (v : V) : (complete exro s v).isNull = v.isNull := by
+  cases s; cases v <;> rfl
+
+/-- **T4.** For a composition-free schema, validating with `DefaultsSet` gives the verdict of validating — without
+it — the value completed beforehand by all applicable defaults (the two-phase reading of default-setting). -/
+theorem visD_completed (exro : Bool) :
+    ∀ s, compFree s = true → s.wf = true →
+      ∀ v, (visD true exro s v).isSome = (visD false exro s (complete exro s v)).isSome := by
+  apply rs_induct_full
+  intro t n r w ml mx props req a items nt oneOf anyOf allOf dflt hp hi _ _ _ _ hcf hwf v
+  unfold compFree at hcf
+  simp only [Bool.and_eq_true, Option.isNone_iff_eq_none, List.isEmpty_iff] at hcf
+  obtain ⟨⟨⟨⟨⟨e1, e2⟩, e3⟩, e4⟩, cfp⟩, cfi⟩ := hcf
+  subst e1 e2 e3 e4
+  obtain ⟨hnd, wp, wi, _⟩ := wf_parts _ _ _ _ _ _ _ _ _ _ _ _ _ _ _ hwf
+  rw [visD_compFree, visD_compFree, complete_isNull]
+  by_cases h1 : (v.isNull && n) = true
+  · simp only [h1, ↓reduceIte]; rfl
+  by_cases h2 : isEmptyLeaf (RS.mk t n r w ml mx props req a items none [] [] [] dflt) = true
+  · simp only [h1, h2, ↓reduceIte]; cases v.isNull <;> rfl
+  simp only [h1, h2, Bool.false_eq_true, ↓reduceIte]
+  cases v with
+  | null => rfl
+  | bool b => rfl
+  | int k => rfl
+  | half k => rfl
+  | str s => rfl
+  | arr xs =>
+    have ec : complete exro (RS.mk t n r w ml mx props req a items none [] [] [] dflt) (.arr xs) =
+        .arr (completeItems exro items xs) := rfl
+    have e : ∀ ds ys, ownK ds exro (RS.mk t n r w ml mx props req a items none [] [] [] dflt)
+        (visProps ds exro props) (visItems ds exro items) (.arr ys) =
+        if permits t .array then (visItems ds exro items ys).map .arr else none := fun _ _ => rfl
+    rw [ec, e, e]
+    cases permits t .array with
+    | false => rfl
+    | true =>
+      simp only [if_true, Option.isSome_map]
+      cases items with
+      | none => rfl
+      | some it =>
+        unfold visItems completeItems
+        rw [mapOpt_isSome, mapOpt_isSome, List.all_map]
+        apply all_congr_mem
+        intro x _
+        exact hi it rfl (by simpa [compFreeO] using cfi) (by simpa [wfOpt] using wi) x
+  | obj kvs =>
+    have ec : complete exro (RS.mk t n r w ml mx props req a items none [] [] [] dflt) (.obj kvs) =
+        .obj (completeProps exro props (inject exro props kvs)) := rfl
+    have e : ∀ ds ys, ownK ds exro (RS.mk t n r w ml mx props req a items none [] [] [] dflt)
+        (visProps ds exro props) (visItems ds exro items) (.obj ys) =
+        if permits t .object && roLoopOK exro props (keys (injD ds exro props ys)) &&
+           countOK (RS.mk t n r w ml mx props req a items none [] [] [] dflt) (injD ds exro props ys).length &&
+           addlOKD (RS.mk t n r w ml mx props req a items none [] [] [] dflt) (injD ds exro props ys) &&
+           requiredOK (RS.mk t n r w ml mx props req a items none [] [] [] dflt) (keys (injD ds exro props ys))
+        then (visProps ds exro props (injD ds exro props ys)).map .obj else none := fun _ _ => rfl
+    rw [ec, e, e]
+    simp only [injD, if_true, Bool.false_eq_true, if_false]
+    have K := completeProps_keys exro props (inject exro props kvs)
+    have Lc := completeProps_lookup exro props hnd
+    have hlen : (completeProps exro props (inject exro props kvs)).length = (inject exro props kvs).length := by
+      have := congrArg List.length K
+      simpa [keys] using this
+    have P : (visProps true exro props (inject exro props kvs)).isSome =
+        (visProps false exro props (completeProps exro props (inject exro props kvs))).isSome := by
+      rw [visProps_isSome true exro props hnd, visProps_isSome false exro props hnd]
+      apply all_congr_mem
+      intro kp hkp
+      have hlp : lookup kp.1 props = some kp.2 := lookup_of_mem_nodup kp.1 kp.2 props hnd (by simpa using hkp)
+      have ihp := hp kp hkp (compFreeP_mem props cfp kp hkp) (wfProps_mem props wp kp hkp)
+      rw [Lc kp.1, hlp]
+      cases hl : lookup kp.1 (inject exro props kvs) with
+      | none => rfl
+      | some x => simp only [Option.map_some]; exact ihp x
+    rw [K, hlen, addlOKD_keys _ _ _ K]
+    cases (permits t .object && roLoopOK exro props (keys (inject exro props kvs)) &&
+        countOK (RS.mk t n r w ml mx props req a items none [] [] [] dflt) (inject exro props kvs).length &&
+        addlOKD (RS.mk t n r w ml mx props req a items none [] [] [] dflt) (inject exro props kvs) &&
+        requiredOK (RS.mk t n r w ml mx props req a items none [] [] [] dflt) (keys (inject exro props kvs))) with
+    | false => rfl
+    | true => simp only [if_true, Option.isSome_map]; exact P
+
+/-! #### the completed value is well-formed -/
+
+theorem wfKV_iff (kvs : List (Str × V)) : V.wfKV kvs = true ↔ ∀ kv ∈ kvs, kv.2.wf = true := by
+  induction kvs with
+  | nil => simp [V.wfKV]
+  | cons e r ih =>
+    obtain ⟨k, v⟩ := e
+    unfold V.wfKV
+    simp only [Bool.and_eq_true, ih, List.mem_cons, forall_eq_or_imp]
+
+theorem wfL_iff (xs : List V) : V.wfL xs = true ↔ ∀ x ∈ xs, x.wf = true := by
+  induction xs with
+  | nil => simp [V.wfL]
+  | cons e r ih =>
+    unfold V.wfL
+    simp only [Bool.and_eq_true, ih, List.mem_cons, forall_eq_or_imp]
+
+theorem mem_setKey (k : Str) (y : V) (kvs : List (Str × V)) (kv : Str × V) (h : kv ∈ setKey k y kvs) :
+    kv = (k, y) ∨ kv ∈ kvs := by
+  induction kvs with
+  | nil => simp [setKey] at h; exact Or.inl h
+  | cons e r ih =>
+    obtain ⟨k', v'⟩ := e
+    unfold setKey at h
+    by_cases hk : k = k'
+    · simp only [hk, if_true, List.mem_cons] at h
+      rcases h with h | h
+      · exact Or.inl (by rw [h, hk])
+      · exact Or.inr (List.mem_cons_of_mem _ h)
+    · simp only [hk, if_false, List.mem_cons] at h
+      rcases h with h | h
+      · exact Or.inr (by rw [h]; simp)
+      · rcases ih h with h' | h'
+        · exact Or.inl h'
+        · exact Or.inr (List.mem_cons_of_mem _ h')
+
+theorem inject_wf (exro : Bool) (props : List (Str × RS)) (hp : wfProps props = true) :
+    ∀ kvs, (keys kvs).Nodup → (∀ kv ∈ kvs, kv.2.wf = true) →
+      (keys (inject exro props kvs)).Nodup ∧ ∀ kv ∈ inject exro props kvs, kv.2.wf = true := by
+  induction props with
+  | nil => intro kvs h1 h2; exact ⟨h1, h2⟩
+  | cons e r ih =>
+    obtain ⟨k0, p0⟩ := e
+    have hp' := hp
+    unfold wfProps at hp'
+    simp only [Bool.and_eq_true] at hp'
+    intro kvs h1 h2
+    unfold inject
+    cases hl : lookup k0 kvs with
+    | some x => simp only; exact ih hp'.2 kvs h1 h2
+    | none =>
+      cases hd : dfltFor exro p0 with
+      | none => simp only; exact ih hp'.2 kvs h1 h2
+      | some d =>
+        simp only
+        apply ih hp'.2
+        · have hnot : k0 ∉ keys kvs := by
+            intro hm
+            obtain ⟨w, hw⟩ := lookup_isSome_of_mem_keys k0 kvs hm
+            rw [hl] at hw; cases hw
+          simp only [keys, List.map_append, List.map_cons, List.map_nil] at hnot ⊢
+          rw [List.nodup_append]
+          refine ⟨h1, by simp, ?_⟩
+          intro a ha b hb
+          simp only [List.mem_singleton] at hb
+          subst hb
+          intro hab; subst hab; exact hnot ha
+        · intro kv hkv
+          rcases List.mem_append.mp hkv with h | h
+          · exact h2 kv h
+          · simp only [List.mem_singleton] at h
+            subst h
+            have hd' : p0.dflt = some d := by
+              unfold dfltFor at hd
+              split at hd
+              · cases hd
+              · exact hd
+            have : wfDflt p0.dflt = true := by
+              cases p0
+              obtain ⟨_, _, _, _, _, _, _, w⟩ := wf_parts _ _ _ _ _ _ _ _ _ _ _ _ _ _ _ hp'.1
+              exact w
+            rw [hd'] at this
+            exact this
+
+theorem completeProps_wf (exro : Bool) (props : List (Str × RS))
+    (hc : ∀ kp ∈ props, ∀ v, v.wf = true → (complete exro kp.2 v).wf = true) :
+    ∀ kvs, (∀ kv ∈ kvs, kv.2.wf = true) → ∀ kv ∈ completeProps exro props kvs, kv.2.wf = true := by
+  induction props with
+  | nil => intro kvs h; exact h
+  | cons e r ih =>
+    obtain ⟨k, p⟩ := e
+    intro kvs h
+    unfold completeProps completeStep
+    apply ih (fun kp hkp => hc kp (by simp [hkp]))
+    cases hl : lookup k kvs with
+    | none => exact h
+    | some x =>
+      intro kv hkv
+      rcases mem_setKey k _ kvs kv hkv with h' | h'
+      · rw [h']
+        exact hc (k, p) (by simp) x (h (k, x) (lookup_some_mem k kvs x hl))
+      · exact h kv h'
+
+/-- completion keeps object keys distinct and values well-formed -/
+theorem complete_wf (exro : Bool) : ∀ s, s.wf = true → ∀ v, v.wf = true → (complete exro s v).wf = true := by
+  apply rs_induct_full
+  intro t n r w ml mx props req a items nt oneOf anyOf allOf dflt hp hi _ _ _ _ hwf v hv
+  obtain ⟨hnd, wp, wi, _⟩ := wf_parts _ _ _ _ _ _ _ _ _ _ _ _ _ _ _ hwf
+  cases v with
+  | null => rfl
+  | bool b => rfl
+  | int k => rfl
+  | half k => rfl
+  | str s => rfl
+  | arr xs =>
+    have ec : complete exro (RS.mk t n r w ml mx props req a items nt oneOf anyOf allOf dflt) (.arr xs) =
+        .arr (completeItems exro items xs) := rfl
+    rw [ec]
+    unfold V.wf at hv ⊢
+    cases items with
+    | none => exact hv
+    | some it =>
+      unfold completeItems
+      rw [wfL_iff] at hv ⊢
+      intro y hy
+      obtain ⟨x, hx, rfl⟩ := List.mem_map.mp hy
+      exact hi it rfl (by simpa [wfOpt] using wi) x (hv x hx)
+  | obj kvs =>
+    have ec : complete exro (RS.mk t n r w ml mx props req a items nt oneOf anyOf allOf dflt) (.obj kvs) =
+        .obj (completeProps exro props (inject exro props kvs)) := rfl
+    rw [ec]
+    unfold V.wf at hv ⊢
+    simp only [Bool.and_eq_true] at hv ⊢
+    have hk := (nodupKeys_iff _).mp hv.1
+    have hvals := (wfKV_iff _).mp hv.2
+    obtain ⟨i1, i2⟩ := inject_wf exro props wp kvs hk hvals
+    refine ⟨?_, ?_⟩
+    · rw [completeProps_keys]; exact (nodupKeys_iff _).mpr i1
+    · rw [wfKV_iff]
+      exact completeProps_wf exro props
+        (fun kp hkp v hv => hp kp hkp (wfProps_mem props wp kp hkp) v hv) _ i2
+
+/-- composition-free schemas: the validator with `DefaultsSet` accepts exactly when the plain request-side validator
+accepts the completed value -/
+theorem visD_completed_visit (exro : Bool) (s : RS) (v : V) (hc : compFree s = true) (hs : s.wf = true)
+    (hv : v.wf = true) : (visD true exro s v).isSome = visit exro s (complete exro s v) := by
+  rw [visD_completed exro s hc hs v, visD_off exro _ (complete_wf exro s hs v hv) s hs, guardV_isSome]
+
 /-! ### the three theorems together -/
 
 /-- where defaults are neutral (`defaultsNeutral`), validating with `DefaultsSet` accepts exactly when the plain
